@@ -254,7 +254,19 @@ func inMemoryEnds(c *core.Ctx, s setup, digest string, refStream []byte) {
 	whole := append(append([]byte(nil), prefix...), refStream...)
 	var src io.Reader
 	var feed func()
-	switch c.Pick("mem.src", 3) {
+	var lateFeed func()
+	switch c.Pick("mem.src", 4) {
+	case 3:
+		// a bytes.Buffer that holds only the 8-byte header when the decoder is created; the
+		// records arrive before the first Read
+		if len(refStream) < 8 {
+			src = bytes.NewBuffer(append([]byte(nil), refStream...))
+			break
+		}
+		b := bytes.NewBuffer(append([]byte(nil), refStream[:8]...))
+		src = b
+		lateFeed = func() { b.Write(refStream[8:]) }
+		c.Probe("source bytes.Buffer filled after NewDecoder")
 	case 0:
 		r := bytes.NewReader(whole)
 		r.Seek(int64(len(prefix)), io.SeekStart)
@@ -279,7 +291,8 @@ func inMemoryEnds(c *core.Ctx, s setup, digest string, refStream []byte) {
 		c.Probe("source bytes.Buffer filled while the decoder reads")
 	}
 	var dec io.Reader
-	if pi := c.Guard("mice.NewDecoder", func() { dec, err = s.enc.NewDecoder(src, digest, 16384) }); pi != nil {
+	limit := c.PickU64("mem.limit", 16384, 16384, ^uint64(0), 1<<63, 1<<63-1, 1<<32) // incl. "no limit"
+	if pi := c.Guard("mice.NewDecoder", func() { dec, err = s.enc.NewDecoder(src, digest, limit) }); pi != nil {
 		if c.Oracle("C14", "C10") {
 			c.Violation("panic", pi.Site, "NewDecoder panicked: %s", pi.Value)
 		}
@@ -290,6 +303,9 @@ func inMemoryEnds(c *core.Ctx, s setup, digest string, refStream []byte) {
 			c.Violation("decode-error", "mice.NewDecoder/in-memory-source", "NewDecoder failed on the honest stream read from an advanced in-memory reader: %v", err)
 		}
 		return
+	}
+	if lateFeed != nil {
+		lateFeed()
 	}
 	var out []byte
 	if feed != nil {
@@ -812,6 +828,19 @@ func TestArbitrary(t *testing.T) {
 				hdr += b64url(top)
 			} else {
 				hdr += b64std(top)
+			}
+			if c.Chance("digest.list", 1, 6) {
+				// a digest LIST (RFC 3230): the MI entry names some other 32 bytes, and a further
+				// element of another algorithm carries the value the stream actually chains to.
+				// Only the MI entry can authenticate anything; the stream matches nothing it names.
+				x := c.BytesN("digest.listMI", 32)
+				enc := b64std
+				if s.draft == refmice.Draft02 {
+					enc = b64url
+				}
+				hdr = s.draft.Name() + "=" + enc(x) + c.PickStr("digest.listSep", ",", ", ") + c.PickStr("digest.listAlg", "sha-256", "sha-512", "md5") + "=" + enc(top)
+				top, committed, commits = x, nil, false
+				c.Probe("digest header listing a second element")
 			}
 			plan := c.DrawReaderPlan("chan", len(stream), true)
 			c.Event("reader plan %v", plan)
